@@ -15,3 +15,9 @@ owns = owner("C01")
 
 def specs():
     return [c() for c in api.SPECS] + [c() for c in introspect_compose.SPECS] + [c() for c in sigs.SPECS]
+
+
+def bounded(tier, seed, pr):
+    from pyvc.boundedrun import run_bounded
+
+    return [run_bounded(pr, "b_corpus.py", "corpus_edits_value_and_sensitivity", args={"mode": "c01"}, timeout=1500)]
